@@ -434,6 +434,14 @@ var c19StaticErrorQueries = []string{
 	"SELECT id, SPIN.RAISE('boom') FROM t",
 	"SELECT id, SpinAsync.Raise('boom') FROM t",
 	"SELECT id, async.raise_when(id = 1, 'boom') FROM t",
+	"SELECT s, COUNT(*) AS c FROM t GROUP BY s, id + 0",
+	"SELECT s, COUNT(*) AS c FROM t GROUP BY RAISE('boom')",
+	"SELECT id, AWAIT(RAISE('boom')) AS x FROM t",
+	"SELECT id, AWAIT(AWAIT(RAISE('boom'))) AS x FROM t",
+	"SELECT id, AWAIT((SELECT AWAIT(RAISE('boom')) AS y FROM dual)) AS x FROM t",
+	"SELECT * FROM (SELECT id, AWAIT(RAISE('boom')) AS x FROM t) d",
+	"SELECT x.x AS x FROM (SELECT AWAIT(RAISE('boom')) AS x, id FROM t) x LEFT JOIN u y ON x.id = y.id",
+	"SELECT id, (SELECT AWAIT(RAISE('boom')) AS y FROM dual) AS sub FROM t",
 	"SELECT id, a FROM t ORDER BY a + 1",
 	"SELECT id, (SELECT id FROM `<-t` ORDER BY a + 1) AS sub FROM t",
 }
@@ -456,11 +464,21 @@ var c19CertainFailures = map[string]bool{
 	"SELECT id, ASYNC.fx(1, nosuchfunction(a)) AS x FROM t":                     true,
 	// RAISE cannot be detached from the query: however the qualifier and the name are spelled, the
 	// query fails (by refusing the qualifier or by raising), it never reports the error to the side
-	"SELECT id, ASYNC.RAISE_WHEN(id = 1, 'boom') FROM t": true,
-	"SELECT id, Async.Raise_When(id = 1, 'boom') FROM t": true,
-	"SELECT id, SPIN.RAISE('boom') FROM t":               true,
-	"SELECT id, SpinAsync.Raise('boom') FROM t":          true,
-	"SELECT id, async.raise_when(id = 1, 'boom') FROM t": true,
+	// a grouping expression that is no column is a type error of the GROUP BY clause
+	"SELECT s, COUNT(*) AS c FROM t GROUP BY s, id + 0":     true,
+	"SELECT s, COUNT(*) AS c FROM t GROUP BY RAISE('boom')": true,
+	// AWAIT defers its argument, it does not detach its failure: at any depth, in any nested query
+	"SELECT id, AWAIT(RAISE('boom')) AS x FROM t":                                                       true,
+	"SELECT id, AWAIT(AWAIT(RAISE('boom'))) AS x FROM t":                                                true,
+	"SELECT id, AWAIT((SELECT AWAIT(RAISE('boom')) AS y FROM dual)) AS x FROM t":                        true,
+	"SELECT * FROM (SELECT id, AWAIT(RAISE('boom')) AS x FROM t) d":                                     true,
+	"SELECT x.x AS x FROM (SELECT AWAIT(RAISE('boom')) AS x, id FROM t) x LEFT JOIN u y ON x.id = y.id": true,
+	"SELECT id, (SELECT AWAIT(RAISE('boom')) AS y FROM dual) AS sub FROM t":                             true,
+	"SELECT id, ASYNC.RAISE_WHEN(id = 1, 'boom') FROM t":                                                true,
+	"SELECT id, Async.Raise_When(id = 1, 'boom') FROM t":                                                true,
+	"SELECT id, SPIN.RAISE('boom') FROM t":                                                              true,
+	"SELECT id, SpinAsync.Raise('boom') FROM t":                                                         true,
+	"SELECT id, async.raise_when(id = 1, 'boom') FROM t":                                                true,
 }
 
 func evalC19Static(b *Bundle, r *Runner, exp *c19Expect) []*Violation {
